@@ -757,6 +757,7 @@ package template
 //@   requires derivedok: forallkey(w, haskeym(e.derived, w) ==> !isnil(e.derived[w]))
 //@   requires editkeys: forallref(p, haskeym(e.actionNodeEdits, p) || haskeym(e.templateNodeEdits, p) || haskeym(e.textNodeEdits, p) ==> !isnil(p))
 //@   ensures named: c.state == stateText ==> sameview(dname, name)
+//@   ensures memoised: old(haskeym(e.output, dname)) && !isnil(esctemplate(e.ns, name)) && !isnil(old(asref(esctemplate(e.ns, name), "TT_Template").Tree)) ==> identical(r, old(e.output[dname]))
 //@   ensures failedcallee: isnil(esctemplate(e.ns, name)) || isnil(old(asref(esctemplate(e.ns, name), "TT_Template").Tree)) ==> r.state == stateError && !isnil(r.err)
 //@   ensures derivedok: forallkey(w, haskeym(e.derived, w) ==> !isnil(e.derived[w]))
 //@   ensures editkeys: forallref(p, haskeym(e.actionNodeEdits, p) || haskeym(e.templateNodeEdits, p) || haskeym(e.textNodeEdits, p) ==> !isnil(p))
@@ -803,8 +804,9 @@ package template
 //@   option modifies @ANALYSISMAPS @DERIVEDTREES
 //@   option casesplit true
 //@   requires !isnil(t)
-//@   ensures fixpoint: r.state != stateError ==> namedlike(true, "etbok", c, t) || namedlike(true, "etbok", namedlike(c, "etb", c, t), t)
-//@   ensures first: namedlike(true, "etbok", c, t) ==> identical(r, namedlike(c, "etb", c, t))
+//@   ensures fixpoint: r.state != stateError ==> namedlike(true, "etbok", c, c, t) || namedlike(true, "etbok", c, namedlike(c, "etb", c, c, t), t)
+//@   ensures first: namedlike(true, "etbok", c, c, t) ==> identical(r, namedlike(c, "etb", c, c, t))
+//@   ensures second: !namedlike(true, "etbok", c, c, t) && r.state != stateError ==> identical(r, namedlike(c, "etb", c, namedlike(c, "etb", c, c, t), t))
 //@   ensures memo: r.state != stateError ==> haskeym(e.output, ttname(t)) && identical(e.output[ttname(t)], r)
 //@   ensures treesfresh: onlyfresh("TT_Template.Tree parse_Tree.Name#b parse_Tree.Name#o parse_Tree.Name#l")
 //@   ensures derivedok: forallkey(w, haskeym(e.derived, w) ==> !isnil(e.derived[w]))
